@@ -34,7 +34,8 @@ func drawMax(t *rapid.T) int64 {
 func TestC05LRU(t *testing.T) {
 	E.SetRule("rapid state machine (t.Repeat) over one small cache (max_size 16 KiB..1 MiB, also non-multiples of 4 KiB; zstd and uncompressed): put of CAS/AC/RAW values sized relative to max_size (tiny, 4 KiB±1, M/8, M/3, M/2, near M, M, M+1, 2M; compressible or not), overwrites with other sizes, Get (size known / -1), Contains, FindMissingCasBlobs, validated ActionResult lookup, failing uploads. Oracle after each step, from a harness-side logical clock of uses and REAL file sizes: no victim certainly more recent than a survivor; eviction only if on-disk total + need > max_size; re-adding the most recent victim would overflow; accepted => present; logical > max_size => rejected, nothing evicted. non-trivial: history with >=1 eviction preceded by a recency-refreshing lookup hit; distinct by the sequence of (rule, outcome class)")
 	rt.Check(t, rt.N(250, 2000), func(t *rapid.T) {
-		cfg := machine.Cfg{MaxSize: drawMax(t), Storage: rapid.SampledFrom([]string{"zstd", "uncompressed"}).Draw(t, "storage"), Codec: "go", Failures: true}
+		cfg := machine.Cfg{MaxSize: drawMax(t), Storage: rapid.SampledFrom([]string{"zstd", "uncompressed"}).Draw(t, "storage"), Codec: "go", Failures: false,
+			Proxy: rapid.IntRange(0, 2).Draw(t, "backend") == 0}
 		m := machine.New(t, cfg)
 		defer m.Close()
 		var shape []string
@@ -46,6 +47,19 @@ func TestC05LRU(t *testing.T) {
 				key, logical, err := m.Put(t)
 				n := m.CheckLRU(t, ob, "put", key, logical, err == nil)
 				shape = append(shape, fmt.Sprintf("put:%v:%d", err == nil, n))
+				if n > 0 {
+					evictions++
+					if sawLookup {
+						lookupsBeforeEviction = true
+					}
+				}
+			},
+			"fetch": func(t *rapid.T) {
+				// a backend fetch is an incoming item like an upload
+				ob := m.ObserveBefore()
+				key, logical, hit := m.FetchKV(t)
+				n := m.CheckLRU(t, ob, "fetch", key, logical, hit)
+				shape = append(shape, fmt.Sprintf("fetch:%v:%d", hit, n))
 				if n > 0 {
 					evictions++
 					if sawLookup {
@@ -83,7 +97,7 @@ func TestC05LRU(t *testing.T) {
 			},
 		})
 		nontrivial := evictions > 0 && lookupsBeforeEviction
-		labels := []string{"storage=" + cfg.Storage, fmt.Sprintf("evictions>0=%v", evictions > 0), fmt.Sprintf("nontrivial=%v", nontrivial)}
+		labels := []string{"storage=" + cfg.Storage, fmt.Sprintf("backend=%v", cfg.Proxy), fmt.Sprintf("evictions>0=%v", evictions > 0), fmt.Sprintf("nontrivial=%v", nontrivial)}
 		for _, f := range []string{"overwrite", "overwrite-size-change", "put-rejected", "lookup-hit", "depcheck-hit"} {
 			if m.Flags[f] {
 				labels = append(labels, "has="+f)
